@@ -36,7 +36,7 @@ class Mode:
 
     def __init__(self, name, tocks=True, rets=True, raises=False, kbd=False, enterfail=False,
                  enterdone=False, ext=(), rem=(), kinds=(0, 1, 2, 3, 4), cfg=True, horizon=3,
-                 limits=(None, 2.0, 2.5, 0.3), always=False, stale_done=False, xtocks=False, callcfg=False, tockset=(), handdrive=False, rerun=False, prerun=False, sysexit=False, stale=False):
+                 limits=(None, 2.0, 2.5, 0.3), always=False, stale_done=False, xtocks=False, callcfg=False, tockset=(), handdrive=False, rerun=False, prerun=False, sysexit=False, stale=False, dupdoer=False):
         self.name = name
         self.tocks, self.rets, self.raises, self.kbd = tocks, rets, raises, kbd
         self.enterfail, self.enterdone = enterfail, enterdone
@@ -49,6 +49,7 @@ class Mode:
         self.tockset = tuple(tockset)   # with tocks=False: the only yielded tocks offered (multiples of T), e.g. "not due at the stop"
         self.prerun = prerun            # the same doer objects may have been run to completion before, by another Doist on another tyme base
         self.stale = stale              # the scheduler may hold a deed left over from before the run (extend() on the idle Doist); a run given its doers starts from those only
+        self.dupdoer = dupdoer          # the first doer may be listed twice (two deeds of one doer)
         self.sysexit = sysexit          # a doer may call sys.exit() in its recur
         self.rerun = rerun              # the same scheduler may be run a second time, without arguments, right after the first run
         self.handdrive = handdrive      # the run may be driven by hand: enter(doers=) / recur(deeds=) / exit(deeds=) on an explicit deque
@@ -655,6 +656,14 @@ def run(job, ch, mode=None, table=None, cfg=None, kinds=None, runner=None):
         w.kindsel[name] = k
         return k
     doers = build(w, shape, ksel)
+    first = w.order[0] if w.order else None
+    if len(cfg) > 5:
+        w.dup = cfg[5]
+    else:
+        w.dup = bool(w.mode.dupdoer and w.table is None and ch is not None and w.kind.get(first) != "D"
+                     and ch.pick([False, True], "cfg:dupdoer"))
+    if w.dup:
+        doers = doers + [doers[0]]      # listed twice: two deeds
     if w.mode.tocks and w.table is None:
         # per-leaf default yield: one deviation changes what the leaf yields at *every* step
         for n in list(w.order):
@@ -664,11 +673,17 @@ def run(job, ch, mode=None, table=None, cfg=None, kinds=None, runner=None):
     if via == "prerun":
         prerun(w, doers, start)
     # the sign of a limit carries no meaning (documented as a magnitude by abs() at every entry point)
-    sgn = -1.0 if (w.mode.callcfg and lim is not None and w.table is None and ch is not None and ch.pick([False, True], "cfg:neglimit")) else 1.0
+    if len(cfg) > 4:
+        sgn = cfg[4]       # a differential re-run is given the limit exactly as the first run was
+    else:
+        sgn = -1.0 if (w.mode.callcfg and lim is not None and w.table is None and ch is not None and ch.pick([False, True], "cfg:neglimit")) else 1.0
+    w.sgn = sgn
     if via in ("call", "call+rerun", "call+stale"):     # constructor holds other (stale) values; the run's limit and start tyme are given to do()/ado()
         # "no limit" for this run is said with limit=0 (None would keep the constructor's)
         d = LoggedDoist(w, tock=T, real=False, limit=(3 * T if lim is None else lim + 3 * T), doers=doers, tyme=start + 3 * T + 0.5)
         w.call_kwargs = dict(limit=(0.0 if lim is None else sgn * lim), tyme=start)
+        if w.dup:
+            w.call_kwargs["doers"] = doers      # the list (with its repeated entry) is given to the run itself
         w.second_run = (via == "call+rerun")   # then once more without arguments: what the first call stored is what counts
         if via == "call+stale":
             # a deed left over in the idle scheduler (somebody extend()ed it before the run): a run that is given its doers
